@@ -300,6 +300,7 @@ func runCrashTest(t *testing.T, prop, test, rule string, gen func(rt *rapid.T, w
 				stats.Label("target.epic_move_closing_a_waits_for_cycle")
 			}
 		}
+		stats.EvalN(oc.points) // every killed re-run is an execution
 		stats.LabelN("kill_points", oc.points)
 		stats.LabelN("kills_landed", oc.killed)
 		stats.LabelN("follow_up_commands_after_a_kill", oc.followUps)
@@ -474,6 +475,7 @@ func runBulkPruneCrash(t *testing.T, prop, test string) {
 			rt.Fatalf("%s violated: %v", prop, oc.viol)
 		}
 		stats.Eval()
+		stats.EvalN(oc.points) // every killed re-run is an execution
 		stats.LabelN("kill_points", oc.points)
 		stats.LabelN("items_in_store", len(pre.Items))
 		if len(PruneSet(pre)) > 64 || target.Kind == "compact" {
